@@ -118,15 +118,15 @@ Theorem C11_observers : forall ops st h b,
 Proof. exact observers. Qed.
 Print Assumptions C11_observers.
 
-(* Range, for every order in which the range statement may produce the keys of
-   the forward map: the callback is called on a list ps of pairs, in turn, until
+(* Range, for every Bimap value (reachable or not) and every order in which the
+   range statement may produce the keys of the forward map: the callback is called on a list ps of pairs, in turn, until
    it returns false ([visit]); ps lists the pair set without repetition
    (a permutation of [map_to_list], which has no duplicates) in that order. *)
-Theorem C11_range : forall ops st h b order,
-  run ops = Ok st -> st !! h = Some b -> order ≡ₚ map_keys (forward b) ->
+Theorem C11_range : forall b order,
+  order ≡ₚ map_keys (forward b) ->
   exists ps, ps.*1 = order /\ ps ≡ₚ map_to_list (abs b) /\
     forall T (f : T -> Z -> Z -> T * bool) s, Range b order f s = visit ps f s.
-Proof. exact run_range. Qed.
+Proof. exact Range_spec. Qed.
 Print Assumptions C11_range.
 
 (* the keys the range statement produces are the keys of the pair set *)
